@@ -67,6 +67,8 @@ struct Sut {
     virt: u64,
     ex: Option<CommandExecutor>,
     sharded: Option<(tokio::runtime::Runtime, ShardedActorState<SimClock>, SimClock)>,
+    /// T2, every other run: the server's own TtlManagerActor (spawned on the run's runtime) does the eviction ticks
+    ttl_manager: Option<redis_sim::production::TtlManagerHandle>,
     /// T3: the node the persistent server runs (ReplicatedShardedState: 16 replicated shard actors, each with its own
     /// executor), one key in play so that every command stays on one shard
     replicated: Option<(tokio::runtime::Runtime, redis_sim::production::ReplicatedShardedState<SimClock>, SimClock)>,
@@ -78,18 +80,23 @@ impl Sut {
             let clock = SimClock::new(epoch_ms);
             let rt = rt::runtime(seed);
             let state = { let _g = rt.enter(); redis_sim::production::ReplicatedShardedState::with_time_source(crate::model::cluster::repl_config(1, redis_sim::replication::ConsistencyLevel::Eventual), clock.clone()) };
-            Sut { mode, epoch_ms, virt: 0, ex: None, sharded: None, replicated: Some((rt, state, clock)) }
+            Sut { mode, epoch_ms, virt: 0, ex: None, sharded: None, replicated: Some((rt, state, clock)), ttl_manager: None }
         } else if mode == Mode::Sharded {
             let clock = SimClock::new(epoch_ms);
             let rt = rt::runtime(seed);
             let state = { let _g = rt.enter(); crate::props::c03::shard_state(1, &clock) };
-            Sut { mode, epoch_ms, virt: 0, ex: None, sharded: Some((rt, state, clock)), replicated: None }
+            let ttl_manager = if seed % 2 == 0 {
+                let _g = rt.enter();
+                let metrics = std::sync::Arc::new(redis_sim::observability::Metrics::new(&redis_sim::observability::DatadogConfig::from_env()));
+                Some(redis_sim::production::TtlManagerActor::spawn_with_interval(state.clone(), 100, metrics))
+            } else { None };
+            Sut { mode, epoch_ms, virt: 0, ex: None, sharded: Some((rt, state, clock)), replicated: None, ttl_manager }
         } else {
             // exactly what ShardActor::new_with_shared_scripts does with the time source's start instant
             let mut ex = CommandExecutor::new();
             ex.set_simulation_start_epoch((epoch_ms / 1000) as i64);
             ex.set_simulation_start_epoch_ms(epoch_ms as i64);
-            Sut { mode, epoch_ms, virt: 0, ex: Some(ex), sharded: None, replicated: None }
+            Sut { mode, epoch_ms, virt: 0, ex: Some(ex), sharded: None, replicated: None, ttl_manager: None }
         }
     }
     fn now_abs(&self) -> u64 { self.epoch_ms + self.virt }
@@ -103,6 +110,12 @@ impl Sut {
         if let Some(ex) = &mut self.ex { return ex.evict_expired_direct(vt); }
         if let Some((rt, st, _)) = self.replicated.as_ref() { return rt.block_on(st.evict_expired_all_shards()); }
         let (rt, st, _) = self.sharded.as_ref().unwrap();
+        if let Some(h) = &self.ttl_manager {
+            // a manual tick through the manager's mailbox; then the manager and the shard get to run until the eviction is done
+            h.tick();
+            rt.block_on(async { for _ in 0..8 { tokio::task::yield_now().await; } });
+            return 0;
+        }
         rt.block_on(st.evict_expired_all_shards())
     }
     /// One command in, one reply out. A panic inside the code under test is returned as Err(()).
@@ -386,6 +399,7 @@ impl<'a> Run<'a> {
     fn tick(&mut self) {
         let n = self.sut.tick();
         self.rep.fault("evict_tick");
+        if self.sut.ttl_manager.is_some() { self.rep.probe("evict_tick_through_the_ttl_manager_actor"); }
         if self.sut.mode == Mode::NodeClock { let dead = self.model.set_now(self.sut.now_abs()); if !dead.is_empty() { self.crossed_deadline = true; } }
         self.stale.clear();
         self.rep.log(self.trace, || format!("evict tick at +{} ms -> {} evicted", self.sut.virt, n));
